@@ -58,6 +58,8 @@ M = [
     ('children', '_has_id_intersection', 'pjplan/task.py', "    if len(new_task_ids) != len(set([id(t) for t in new_tasks])):\n        return True\n", "", 'two-new-tasks'),
     ('children', '_has_id_intersection', 'pjplan/task.py', "    new_tasks = [t for t in all_children_tasks if id(t) not in parent_tree_object_ids]", "    new_tasks = [t for t in all_children_tasks if id(t) in parent_tree_object_ids]", 'C05'),
     ('children', '_has_id_intersection', 'pjplan/task.py', "    parent_root = parent.wbs._root() if parent.wbs is not None else _find_root(parent)", "    parent_root = parent", 'C05'),
+    ('children', 'WBS.__init__', 'pjplan/wbs.py', "        self.__root._attach(self)\n", "", 'WR'),
+    ('children', 'WBS.__init__', 'pjplan/wbs.py', "        self.__root = Task(EMPTY_TASK_ID, **kwargs)", "        self.__root = Task(0, **kwargs)", 'hidden-root'),
     ('closure', 'get_children', 'pjplan/task.py', "                yield ch\n                yield from get_children(ch)", "                yield from get_children(ch)\n                yield ch", 'depth-first'),
     ('closure', 'get_parent', 'pjplan/task.py', "                yield t\n                yield from get_parent(t.parent)", "                yield t", 'ancestors'),
     ('closure', 'get_predecessor', 'pjplan/task.py', "            for pr in t.predecessors:\n                yield pr\n                yield from get_predecessor(pr)", "            for pr in t.predecessors:\n                yield from get_predecessor(pr)", 'every-transitive'),
